@@ -1,8 +1,324 @@
-(* C03 -- RTMP packets survive encode, wire and decode with the right type (under construction). *)
-From Verif Require Import Lib.Base Lib.Sx Model.Amf0 Model.RtmpPacket Proofs.RtmpPacket.
+(* C03 -- RTMP packets survive encode, wire and decode with the right type; transaction-id
+   matching; typed wait.  Property theorems only; every proof is `exact <lemma>` or a short
+   composition.  Model: Model/RtmpPacket.v (transcribed from rtmp/rtmp.go after the fix commits
+   172f07d, acd03f7, 9789218), over the AMF0 model of C05 (Model/Amf0.v).
+
+   Reading guide.  [pkt] has one constructor per packet type of the library; a float64
+   (transaction id, stream id) is its 64-bit pattern; [marshal]/[psize]/[unmarshal r] are
+   MarshalBinary/Size()/r.UnmarshalBinary; [receiver_for p] is the value the New...() constructor
+   of p's type builds (what DecodeMessage unmarshals into); [wf_pkt p] says p is a packet of the
+   property's quantifier: representable fields (strings <= 65535 bytes, arbitrary AMF0 trees with
+   any keys), optional trailing fields present only after the preceding ones, connect with its
+   fixed name and transaction id 1.0, user control data valid for the body width.
+   [decode_message t mt payload] is DecodeMessage on an endpoint whose outstanding-request table
+   is t; it returns the result and the table afterwards. *)
+From Coq Require Import String.
+From Verif Require Import Lib.Base Lib.Sx Lib.GoSem Model.Amf0 Model.RtmpPacket.
+From Verif Require Import Proofs.Amf0 Proofs.RtmpPacket Proofs.RtmpPacketTx.
 Open Scope N_scope.
 
-Theorem c03_stub n : length (marshal (PSetChunkSize n)) = 4%nat.
-Proof. exact (marshal_set_chunk_size_len n). Qed.
+(* The constants the statements below mention are the protocol's (regenerated from rtmp.go). *)
+Theorem c03_constants :
+  cConnect = string_bytes "connect" /\ cCreateStream = string_bytes "createStream" /\
+  cPlay = string_bytes "play" /\ cPublish = string_bytes "publish" /\
+  cResult = string_bytes "_result" /\ cError = string_bytes "_error" /\
+  mtSetChunkSize = 1 /\ mtUserControl = 4 /\ mtWinAck = 5 /\ mtSetPeerBw = 6 /\
+  mtAMF0Command = 20 /\ mtAMF3Command = 17 /\ mtAMF0Data = 18 /\ mtAMF3Data = 15 /\
+  etFmsEvent0 = 26 /\ etSetBufferLength = 3.
+Proof. repeat split; reflexivity. Qed.
 
-Print Assumptions c03_stub.
+(* ---- size: every packet, ALL field values (no well-formedness needed) ---- *)
+Theorem c03_size p : lenN (marshal p) = psize p.
+Proof. exact (marshal_size p). Qed.
+
+(* ---- round trip: every well-formed packet unmarshals, on the receiver its constructor
+   builds, to equal field values; re-marshalling reproduces the bytes and the size ---- *)
+Theorem c03_roundtrip p : wf_pkt p = true ->
+  unmarshal (receiver_for p) (marshal p) = Ok p.
+Proof. exact (unmarshal_marshal p). Qed.
+
+Theorem c03_remarshal p q : wf_pkt p = true -> unmarshal (receiver_for p) (marshal p) = Ok q ->
+  marshal q = marshal p /\ psize q = psize p.
+Proof. exact (remarshal p q). Qed.
+
+(* User control, all 65536 event types: the body is 1 byte for the FMS event 0x1a, 8 bytes for
+   SetBufferLength (3), 4 bytes otherwise; every data value valid for that width round-trips. *)
+Theorem c03_user_control et d x : et < 65536 ->
+  (if et =? 26 then d < 256 else d < 4294967296) ->
+  (if et =? 3 then x < 4294967296 else x = 0) ->
+  let p := PUserControl et d x in
+  lenN (marshal p) = (if et =? 26 then 3 else if et =? 3 then 10 else 6) /\
+  unmarshal new_user_control (marshal p) = Ok p.
+Proof.
+  intros He Hd Hx p. split.
+  - rewrite marshal_size. cbn [psize p]. unfold uc_size.
+    change etFmsEvent0 with 26. change etSetBufferLength with 3.
+    destruct (N.eqb_spec et 26) as [->|]; [reflexivity|]. destruct (et =? 3); reflexivity.
+  - apply (unmarshal_marshal p). cbn [wf_pkt p].
+    change etFmsEvent0 with 26. change etSetBufferLength with 3.
+    apply andb_true_iff; split; [apply andb_true_iff; split|].
+    + apply N.ltb_lt; exact He.
+    + destruct (et =? 26); apply N.ltb_lt; exact Hd.
+    + destruct (et =? 3); [apply N.ltb_lt; exact Hx|apply N.eqb_eq; exact Hx].
+Qed.
+
+(* All uint32 control values. *)
+Theorem c03_control_values n lt : n < 4294967296 -> lt < 256 ->
+  unmarshal new_set_chunk_size (marshal (PSetChunkSize n)) = Ok (PSetChunkSize n) /\
+  unmarshal new_win_ack (marshal (PWinAck n)) = Ok (PWinAck n) /\
+  unmarshal new_set_peer_bw (marshal (PSetPeerBw n lt)) = Ok (PSetPeerBw n lt) /\
+  marshal (PSetPeerBw n lt) = be4 n ++ [lt].
+Proof.
+  intros Hn Hl. apply N.ltb_lt in Hn. apply N.ltb_lt in Hl. repeat split.
+  - apply (unmarshal_marshal (PSetChunkSize n)). exact Hn.
+  - apply (unmarshal_marshal (PWinAck n)). exact Hn.
+  - apply (unmarshal_marshal (PSetPeerBw n lt)). cbn [wf_pkt]. unfold wf_u32. rewrite Hn, Hl. reflexivity.
+Qed.
+
+(* ---- dispatch: the type that arrives is the one the protocol defines ----
+   Table, in full.  Command/data message (types 20, 18, and 17/15 with the one AMF3 format
+   byte skipped), by command name:
+     "connect" -> ConnectAppPacket, "createStream" -> CreateStreamPacket, "play" -> PlayPacket,
+     "publish" -> PublishPacket, any other name except _result/_error -> CallPacket
+     (closeStream, onStatus, ...);
+     "_result"/"_error" -> the response type of the outstanding request with that transaction
+     id: connect -> ConnectAppResPacket, createStream -> CreateStreamResPacket; no outstanding
+     request -> error;
+   message type 1 -> SetChunkSize, 5 -> WindowAcknowledgementSize, 6 -> SetPeerBandwidth,
+   4 -> UserControl.
+   [request_like p]: p is a connect/createStream/publish/play packet carrying that name, or a
+   call whose name is none of the six dispatch names.  The result is [Ok p] itself, so it
+   re-marshals to the payload, and the table is untouched. *)
+Theorem c03_dispatch_request t mt p :
+  wf_pkt p = true -> request_like p = true -> is_amf_type mt = true ->
+  decode_message t mt (carried mt (marshal p)) = (Ok p, t).
+Proof. exact (dispatch_request t mt p). Qed.
+
+Theorem c03_dispatch_control t p :
+  wf_pkt p = true -> is_control p = true ->
+  decode_message t (mtype_of p) (marshal p) = (Ok p, t).
+Proof. exact (dispatch_control t p). Qed.
+
+Theorem c03_dispatch_connect_response t mt name tid o a :
+  let p := PConnectRes name tid o a in
+  wf_pkt p = true -> is_amf_type mt = true -> tx_get t tid = Some cConnect ->
+  decode_message t mt (carried mt (marshal p)) = (Ok p, tx_del t tid).
+Proof. exact (dispatch_connect_res t mt name tid o a). Qed.
+
+Theorem c03_dispatch_create_stream_response t mt name tid o sid :
+  let p := PCreateStreamRes name tid o sid in
+  wf_pkt p = true -> is_response_name name = true -> is_amf_type mt = true ->
+  tx_get t tid = Some cCreateStream ->
+  decode_message t mt (carried mt (marshal p)) = (Ok p, tx_del t tid).
+Proof. exact (dispatch_create_stream_res t mt name tid o sid). Qed.
+
+(* a response without an outstanding request is an error, never a guess; the table is unchanged *)
+Theorem c03_dispatch_unmatched t mt p :
+  wf_pkt p = true -> is_control p = false -> is_response_name (cmd_name p) = true ->
+  is_amf_type mt = true -> tx_get t (cmd_tid p) = None ->
+  decode_message t mt (carried mt (marshal p)) = (Err 5, t).
+Proof. exact (dispatch_response_unmatched t mt p). Qed.
+
+(* ... and so is a response to an outstanding request that has no response type *)
+Theorem c03_dispatch_no_response_type t mt p rn :
+  wf_pkt p = true -> is_control p = false -> is_response_name (cmd_name p) = true ->
+  is_amf_type mt = true -> tx_get t (cmd_tid p) = Some rn ->
+  bytes_eqb rn cConnect = false -> bytes_eqb rn cCreateStream = false ->
+  decode_message t mt (carried mt (marshal p)) = (Err 6, tx_del t (cmd_tid p)).
+Proof. exact (dispatch_response_other t mt p rn). Qed.
+
+(* ---- transactions: the concrete table refines an abstract finite map ----
+   For EVERY sequence of events -- [Sent p]: WritePacket of any packet; [Resp mt name tid rest]: a
+   _result/_error with transaction id tid and any body arrives in any command/data message
+   type; [Other mt p]: any other well-formed packet arrives -- starting from the empty table,
+   the concrete table [t] and the abstract map [m : tid -> option name] stay related by
+   [refines t m] (every lookup agrees, for every 64-bit key incl. NaN and -0), and every event's
+   concrete outcome is the abstract one:
+     ASent;  ANoRequest: the decode is exactly Err 5 ("No matched request");
+     AResponseTo rn: the payload is unmarshalled as the response type of the request name rn
+       (connect -> ConnectAppResPacket, createStream -> CreateStreamResPacket, otherwise Err 6),
+       and the id is no longer outstanding;
+     APacket p: the decode is Ok p.
+   The abstract step [a_step] registers a request iff [asks_response] (below). *)
+Theorem c03_tx_refines_map h :
+  Forall wf_ev h ->
+  refines (fst (c_run [] h)) (fst (a_run a_empty h)) /\
+  Forall2 out_matches (snd (c_run [] h)) (snd (a_run a_empty h)).
+Proof. intros H. exact (run_refines h [] a_empty refines_empty H). Qed.
+
+(* the same from any related pair (one step) *)
+Theorem c03_tx_step t m e : refines t m -> wf_ev e ->
+  refines (fst (c_step t e)) (fst (a_step m e)) /\ out_matches (snd (c_step t e)) (snd (a_step m e)).
+Proof. exact (step_refines t m e). Qed.
+
+(* the guard, explicit: a request is registered iff it is a connect/createStream with a name and
+   a transaction id > 0, i.e. not NaN, not +0/-0, not negative (RTMP: id 0 = no response
+   expected); such requests are never registered and the table is untouched *)
+Theorem c03_tx_guard b : b < 18446744073709551616 ->
+  (f_gt0 b = true <-> (f_isnan b = false /\ f_iszero b = false /\ b < 9223372036854775808)).
+Proof. exact (f_gt0_spec b). Qed.
+
+Theorem c03_tx_never_registered t p :
+  f_gt0 (fst (request_transaction p)) = false -> on_packet_written t p = t.
+Proof. exact (on_packet_written_guard t p). Qed.
+
+Theorem c03_tx_only_positive_ids t m k v : refines t m -> m k = Some v -> f_gt0 k = true.
+Proof. exact (refines_dom t m k v). Qed.
+
+(* exactly once: whatever a response with id tid did, a second response with that id is
+   "No matched request" and leaves the table alone *)
+Theorem c03_tx_once t mt name tid rest mt' name' rest' :
+  keys_pos t -> is_amf_type mt = true -> is_response_name name = true ->
+  is_amf_type mt' = true -> is_response_name name' = true -> tid < 18446744073709551616 ->
+  let t1 := snd (decode_message t mt (carried mt (enc_hdr name tid ++ rest))) in
+  decode_message t1 mt' (carried mt' (enc_hdr name' tid ++ rest')) = (Err 5, t1).
+Proof. exact (response_once t mt name tid rest mt' name' rest'). Qed.
+
+(* ---- typed wait ----
+   [skips want t pre t']: every message of pre passes ReadMessage's arrival hook, decodes (with
+   the table threaded from t to t') and is not of the wanted type.  ExpectPacket returns the
+   first message after such a prefix that decodes to the wanted type, with its index. *)
+Theorem c03_expect_packet want t pre t1 m p t2 post :
+  skips want t pre t1 -> arrive_ok m = true ->
+  decode_message t1 (fst m) (snd m) = (Ok p, t2) -> want p = true ->
+  expect_packet want t (pre ++ m :: post) 0 = (Ok (N.of_nat (length pre), p), t2).
+Proof. exact (expect_packet_first want t pre t1 m p t2 post). Qed.
+
+(* Earlier traffic that does NOT decode is not skipped (per the code): the wait ends with that
+   error -- audio (8), video (9), acknowledgement (3), abort (2) messages give "Unknown
+   message" (code 2), an unmatched response gives 5 -- ... *)
+Theorem c03_expect_packet_undecodable want t pre t1 m e t2 post :
+  skips want t pre t1 -> arrive_ok m = true ->
+  decode_message t1 (fst m) (snd m) = (Err e, t2) ->
+  expect_packet want t (pre ++ m :: post) 0 = (Err e, t2).
+Proof. exact (expect_packet_undecodable want t pre t1 m e t2 post). Qed.
+
+Theorem c03_unknown_message_type t mt pl : pl <> [] ->
+  (mt =? 1) = false -> (mt =? 5) = false -> (mt =? 6) = false ->
+  is_amf_type mt = false -> (mt =? 4) = false ->
+  decode_message t mt pl = (Err 2, t).
+Proof. exact (decode_unknown_type t mt pl). Qed.
+
+(* ... and the end of the stream, or a Set Chunk Size / User Control / Window Acknowledgement
+   Size message that fails its arrival hook, is a read error (code 8) *)
+Theorem c03_expect_packet_read_error want t pre t1 rest :
+  skips want t pre t1 -> (rest = [] \/ exists m post, rest = m :: post /\ arrive_ok m = false) ->
+  expect_packet want t (pre ++ rest) 0 = (Err 8, t1).
+Proof. exact (expect_packet_read_error want t pre t1 rest). Qed.
+
+(* ExpectMessage(types...): the first arriving message of one of the types (any message when no
+   type is given), skipping all other traffic without decoding it *)
+Theorem c03_expect_message types pre m post :
+  Forall (fun m => arrive_ok m = true /\ type_hit types m = false) pre ->
+  arrive_ok m = true -> type_hit types m = true ->
+  expect_message types (pre ++ m :: post) 0 = Ok (N.of_nat (length pre), m).
+Proof. exact (expect_message_first types pre m post). Qed.
+
+Theorem c03_expect_message_none types pre :
+  Forall (fun m => arrive_ok m = true /\ type_hit types m = false) pre ->
+  expect_message types pre 0 = Err 8.
+Proof. exact (expect_message_none types pre). Qed.
+
+(* well-formed control packets and all command/data messages pass the arrival hook *)
+Theorem c03_arrive_ok_control p : wf_pkt p = true -> is_control p = true ->
+  arrive_ok (mtype_of p, marshal p) = true.
+Proof. exact (arrive_ok_control p). Qed.
+Theorem c03_arrive_ok_command mt pl : is_amf_type mt = true -> arrive_ok (mt, pl) = true.
+Proof. exact (arrive_ok_amf mt pl). Qed.
+
+(* ---- totality (imported by C07): no input makes a packet decoder panic ----
+   any receiver, any byte list (well-formedness of the bytes is not even needed), any table,
+   any message type *)
+Theorem rtmp_unmarshal_total r data : forall s, unmarshal r data <> Panic s.
+Proof. exact (unmarshal_total r data). Qed.
+
+Theorem rtmp_decode_total t mt payload : forall s, fst (decode_message t mt payload) <> Panic s.
+Proof. exact (decode_message_total t mt payload). Qed.
+
+Theorem rtmp_expect_packet_total want ms t i : forall s, fst (expect_packet want t ms i) <> Panic s.
+Proof. exact (expect_packet_total want ms t i). Qed.
+
+Theorem rtmp_expect_message_total types ms i : forall s, expect_message types ms i <> Panic s.
+Proof. exact (expect_message_total types ms i). Qed.
+
+(* ---- non-vacuity ---- *)
+Definition ex_obj : props :=
+  [(string_bytes "app", AStr (string_bytes "live"));
+   (string_bytes "caps", AObj [(string_bytes "v", ANum 4607182418800017408); ([], ABool true)]);
+   (string_bytes "arr", AEcma 2 [(string_bytes "k", ANull)])].
+Definition ex_connect : pkt := PConnect cConnect f_one ex_obj (Some [(string_bytes "x", AUndef)]).
+Definition ex_create_stream : pkt := PCreateStream cCreateStream f_two (Some ANull).
+Definition ex_cs_res : pkt := PCreateStreamRes cResult f_two (Some ANull) f_one.
+Definition ex_call : pkt := PCall cCloseStream 0 (Some ANull) None.
+Definition ex_publish : pkt := PPublish cPublish 0 (Some ANull) (string_bytes "stream") cLive.
+
+Example c03_wf_nonvacuous :
+  wf_pkt ex_connect = true /\ wf_pkt ex_create_stream = true /\ wf_pkt ex_cs_res = true /\
+  wf_pkt ex_call = true /\ wf_pkt ex_publish = true /\
+  request_like ex_connect = true /\ request_like ex_call = true /\ request_like ex_publish = true.
+Proof. vm_compute. repeat split. Qed.
+
+(* a history: createStream with id 2 is sent, its _result arrives (decoded as the response type,
+   consumed), the same _result again is "No matched request", a publish in between arrives as
+   publish; a createStream with id 0 / NaN is never registered *)
+Example c03_history_nonvacuous :
+  let h := [Sent ex_create_stream; Other mtAMF0Command ex_publish;
+            Resp mtAMF0Command cResult f_two (enc ANull ++ enc (ANum f_one));
+            Resp mtAMF3Command cResult f_two (enc ANull ++ enc (ANum f_one))] in
+  Forall wf_ev h /\
+  snd (c_run [] h) = [None; Some (Ok ex_publish); Some (Ok ex_cs_res); Some (Err 5)] /\
+  fst (c_run [] h) = [] /\
+  on_packet_written [] (PCreateStream cCreateStream 0 (Some ANull)) = [] /\
+  on_packet_written [] (PCreateStream cCreateStream 9221120237041090561 (Some ANull)) = [].
+Proof.
+  split; [|vm_compute; repeat split].
+  repeat constructor; vm_compute; auto.
+Qed.
+
+Example c03_expect_nonvacuous :
+  let ms := [(mtWinAck, marshal (PWinAck 2500000)); (mtAMF0Command, marshal ex_call);
+             (mtAMF0Command, marshal ex_publish); (8, [1; 2; 3])] in
+  expect_packet (fun p => kind_of p =? 5) [] ms 0 = (Ok (2, ex_publish), []) /\
+  expect_packet (fun p => kind_of p =? 6) [] ms 0 = (Err 2, []) /\
+  expect_message [8] ms 0 = Ok (3, (8, [1; 2; 3])).
+Proof. vm_compute. repeat split. Qed.
+
+(* the defect fixed by 9789218 (regression): a command whose payload ends after the
+   transaction id is an error, not a slice-bounds panic *)
+Example c03_short_command_regression :
+  let short name := enc (AStr name) ++ enc (ANum f_two) in
+  fst (decode_message [] 20 (short cPublish)) = Err 20 /\
+  fst (decode_message [] 20 (short cPlay)) = Err 20 /\
+  fst (decode_message [(f_two, cCreateStream)] 20 (short cResult)) = Err 19.
+Proof. vm_compute. repeat split. Qed.
+
+Print Assumptions c03_constants.
+Print Assumptions c03_size.
+Print Assumptions c03_roundtrip.
+Print Assumptions c03_remarshal.
+Print Assumptions c03_user_control.
+Print Assumptions c03_control_values.
+Print Assumptions c03_dispatch_request.
+Print Assumptions c03_dispatch_control.
+Print Assumptions c03_dispatch_connect_response.
+Print Assumptions c03_dispatch_create_stream_response.
+Print Assumptions c03_dispatch_unmatched.
+Print Assumptions c03_dispatch_no_response_type.
+Print Assumptions c03_tx_refines_map.
+Print Assumptions c03_tx_step.
+Print Assumptions c03_tx_guard.
+Print Assumptions c03_tx_never_registered.
+Print Assumptions c03_tx_only_positive_ids.
+Print Assumptions c03_tx_once.
+Print Assumptions c03_expect_packet.
+Print Assumptions c03_expect_packet_undecodable.
+Print Assumptions c03_unknown_message_type.
+Print Assumptions c03_expect_packet_read_error.
+Print Assumptions c03_expect_message.
+Print Assumptions c03_expect_message_none.
+Print Assumptions c03_arrive_ok_control.
+Print Assumptions c03_arrive_ok_command.
+Print Assumptions rtmp_unmarshal_total.
+Print Assumptions rtmp_decode_total.
+Print Assumptions rtmp_expect_packet_total.
+Print Assumptions rtmp_expect_message_total.
